@@ -155,6 +155,13 @@ class Interface(ModelElement):
         #    raise TopologyException("Cannot remove child interface interface from Interface in Experiment topology")
         node_id = self.topo.graph_model.find_child_connection_point_by_name(parent_node_id=self.node_id,
                                                                             iname=name)
+        # if the sub-interface is connected to a network service, remove the peer service port (and link) too
+        peer_ids = self.topo.graph_model.find_peer_connection_points(node_id=node_id)
+        if peer_ids is not None:
+            for peer_id in peer_ids:
+                _, peer_props = self.topo.graph_model.get_node_properties(node_id=peer_id)
+                if peer_props.get(ABCPropertyGraph.PROP_TYPE, None) == str(InterfaceType.ServicePort):
+                    self.topo.graph_model.remove_cp_and_links(node_id=peer_id)
 
         self.topo.graph_model.remove_cp_and_links(node_id=node_id, delete_parent=False)
         # remove from interface list as well
